@@ -10,6 +10,7 @@ const (
 	headerBitTC = 1 << 9  // truncated
 	headerBitRD = 1 << 8  // recursion desired
 	headerBitRA = 1 << 7  // recursion available
+	headerBitZ  = 1 << 6  // reserved, zero
 	headerBitAD = 1 << 5  // authentic data
 	headerBitCD = 1 << 4  // checking disabled
 )
@@ -32,6 +33,7 @@ func (h *header) header() Header {
 		Truncated:          (h.bits & headerBitTC) != 0,
 		RecursionDesired:   (h.bits & headerBitRD) != 0,
 		RecursionAvailable: (h.bits & headerBitRA) != 0,
+		Zero:               (h.bits & headerBitZ) != 0,
 		AuthenticData:      (h.bits & headerBitAD) != 0,
 		CheckingDisabled:   (h.bits & headerBitCD) != 0,
 		RCode:              RCode(h.bits & 0xF),
@@ -60,6 +62,7 @@ type Header struct {
 	Truncated          bool
 	RecursionDesired   bool
 	RecursionAvailable bool
+	Zero               bool // The reserved bit (Z). A message that has it set keeps it.
 	AuthenticData      bool
 	CheckingDisabled   bool
 	RCode              RCode
@@ -82,6 +85,9 @@ func (m *Header) Pack() (id uint16, bits uint16) {
 	}
 	if m.Response {
 		bits |= headerBitQR
+	}
+	if m.Zero {
+		bits |= headerBitZ
 	}
 	if m.AuthenticData {
 		bits |= headerBitAD
